@@ -265,6 +265,9 @@ func (tst *tsTable) TakeFileSnapshot(dst string) (success bool, err error) {
 func (tst *tsTable) createMetadata(dst string, snapshot *snapshot) {
 	var partNames []string
 	for i := range snapshot.parts {
+		if snapshot.parts[i].mp != nil {
+			continue
+		}
 		partNames = append(partNames, partName(snapshot.parts[i].ID()))
 	}
 	data, err := json.Marshal(partNames)
